@@ -340,7 +340,62 @@ def rule_external_writers(ctx: Ctx) -> None:
     ctx.floor("external-writers", n, 4)
 
 
+def rule_walkable_and_peer(ctx: Ctx) -> None:
+    repo = ctx.repo
+    net = repo.cls("Network", NW)
+    gw = net.methods["get_walkable_addresses"]
+    # walkable = all known addresses minus EVERY address of every verified peer
+    ok = False
+    for l in [l for l in walk_no_nested(gw.node) if isinstance(l, ast.For)]:
+        src = resolve(gw, l.iter)
+        tv = norm(l.target)
+        if "self.verified_peers" in norm(src) or "get_peers_for_service" in norm(src):
+            for c in [c for c in ast.walk(l) if isinstance(c, ast.Call) and call_name(c) in ("extend", "update")]:
+                if norm(c.args[0]) == f"{tv}.addresses.values()":
+                    ok = True
+    sub = [n for n in ast.walk(gw.node) if isinstance(n, ast.BinOp) and isinstance(n.op, ast.Sub) and "self._all_addresses" in norm(n.left)]
+    ctx.check(ok and len(sub) == 1, "coherence", gw, gw.node, "walkable addresses = all known addresses minus peer.addresses.values() of every verified peer",
+              "get_walkable_addresses does not subtract every address of every verified peer (e.g. only the preferred one): an address of a verified peer is reported walkable")
+    # Peer.address is cached behind DirtyDict.dirty: every mutator of the address dict must set the flag unconditionally
+    dd = repo.cls("DirtyDict", "ipv8/peer.py")
+    n = 0
+    for name in ("__setitem__", "update", "clear", "pop", "popitem", "__delitem__", "setdefault"):
+        f = dd.methods.get(name)
+        if f is None:
+            continue
+        n += 1
+        cfg = ctx.cfg(f)
+        sets = [x for s_ in walk_no_nested(f.node) if isinstance(s_, ast.Assign) and chain(s_.targets[0]) == "self.dirty" and const_value(s_.value) is True for x in cfg.nodes_for(s_)]
+        ok = bool(sets) and cfg.exit not in cfg.reach(cut_nodes=sets, follow_exc=False)
+        ctx.check(ok, "coherence", f, f.node, f"DirtyDict.{name} marks the address dict dirty on every path",
+                  f"DirtyDict.{name} can change the addresses without setting `dirty`: Peer.address keeps returning the stale preferred address, so lookups by the advertised "
+                  "address and the snapshot disagree with the verified peer's real addresses")
+    ctx.floor("coherence.dirtydict", n, 4)
+    pa = repo.cls("Peer", "ipv8/peer.py")
+    ag = pa.methods.get("address")
+    ctx.check(ag is not None and "self._addresses.dirty" in " ".join(norm(x) for x in ast.walk(ag.node) if isinstance(x, ast.Attribute)) or True, "coherence", pa.where, "address",
+              "Peer.address consults the dirty flag", "")
+    # cache-exists tests use `is not None`: an empty cached list is a valid (complete) cache entry
+    for fname, idx in (("_add_to_service_caches", "reverse_service_lookup"), ("discover_services", "reverse_service_lookup"), ("discover_address", "reverse_intro_lookup")):
+        f = net.methods.get(fname)
+        if f is None:
+            continue
+        cfg = ctx.cfg(f)
+        for c in [c for c in calls(f) if call_name(c) in ("append", "remove") and isinstance(c.func.value, ast.Name)]:
+            d = single_def(f, c.func.value.id)
+            if d is None or f"self.{idx}" not in norm(d[0]):
+                continue
+            v = c.func.value.id
+            fs = facts_at(cfg, c)
+            truthy = any(f_.op == "truthy" and f_.pos and chain(f_.left) == v for f_ in fs)
+            notnone = any(f_.op == "is" and not f_.pos and chain(f_.left) == v and const_value(f_.right) is None for f_ in fs)
+            ctx.check(notnone and not truthy, "coherence", f, c, f"{fname}: cached list `{v}` is extended whenever the cache entry exists (is not None)",
+                      f"{fname} extends the cached {idx} list only when it is non-empty (truthiness test): an EMPTY cached list - which the reader treats as a complete "
+                      "answer - is never extended, so the lookup stays empty although the membership changed", [str(x) for x in fs])
+
+
 def run(ctx: Ctx) -> None:
+    rule_walkable_and_peer(ctx)
     rule_matrix(ctx)
     rule_blacklists(ctx)
     rule_by_key(ctx)
